@@ -45,12 +45,12 @@ const transferLimit = 256 << 10
 func genBigChunkSpec(t *rapid.T) ChunkSpec {
 	kind := rapid.SampledFrom([]string{"rand", "rand", "rand", "rand", "text", "period"}).Draw(t, "bigkind")
 	var n int
-	switch rapid.IntRange(0, 5).Draw(t, "biglenclass") {
-	case 0, 1:
+	switch rapid.IntRange(0, 7).Draw(t, "biglenclass") {
+	case 0, 1, 4, 5:
 		n = rapid.IntRange(transferLimit-40, transferLimit+8).Draw(t, "biglen") // zstd framing of incompressible data: +9..+20 bytes
 	case 2:
 		n = transferLimit + rapid.IntRange(-1, 1).Draw(t, "biglen")
-	case 3:
+	case 3, 6:
 		n = rapid.IntRange(transferLimit+1, 300<<10).Draw(t, "biglen")
 	default:
 		n = rapid.IntRange(300<<10, 1<<20).Draw(t, "biglen")
@@ -59,7 +59,7 @@ func genBigChunkSpec(t *rapid.T) ChunkSpec {
 }
 
 // genMatrixBig: a short history of put/get/has on a chunk with a large transfer form (about one
-// matrix case in 25), mostly on a writable server that agrees with the client.
+// matrix case in 40), mostly on a writable server that agrees with the client.
 func genMatrixBig(t *rapid.T) MatrixCase {
 	var c MatrixCase
 	c.ClientUnc = rapid.Bool().Draw(t, "client_unc")
@@ -79,7 +79,7 @@ func genMatrixBig(t *rapid.T) MatrixCase {
 		c.Chunks = append(c.Chunks, genChunkSpec(t, "c"))
 		c.Pre = append(c.Pre, rapid.SampledFrom([]string{"present", "missing"}).Draw(t, "pre"))
 	}
-	nops := rapid.IntRange(1, 4).Draw(t, "nops")
+	nops := rapid.IntRange(1, 3).Draw(t, "nops")
 	for i := 0; i < nops; i++ {
 		op := MOp{Op: rapid.SampledFrom([]string{"put", "put", "put", "get", "get", "has", "putbad"}).Draw(t, "op")}
 		if len(c.Chunks) > 1 && rapid.IntRange(0, 3).Draw(t, "chunk") == 0 {
@@ -179,7 +179,7 @@ func bodyClasses(o *hx.Outcome, op string, n int64, serverUnc bool, extra ...str
 }
 
 func genMatrix(t *rapid.T) MatrixCase {
-	if rapid.IntRange(0, 24).Draw(t, "big") == 0 {
+	if rapid.IntRange(0, 39).Draw(t, "big") == 0 {
 		return genMatrixBig(t)
 	}
 	var c MatrixCase
